@@ -19,28 +19,28 @@ import (
 
 // StressRec is the outcome of one un-gated real-thread run (C17), judged by StoreConcTrace.tla.
 type StressRec struct {
-	Tr        int     `json:"tr"`
-	Kind      string  `json:"kind"`
-	N         int     `json:"n"`
-	Writers   int     `json:"writers"`
-	Bsz       int     `json:"bsz"`
-	Deleter   bool    `json:"deleter"`
-	HeadSeqs  [][]int `json:"headseqs"` // per observer: Head().Height() samples (run-length compressed)
-	HsSeqs    [][]int `json:"hsseqs"`   // per observer: Height() samples
-	HeadBad   int     `json:"headBad"`  // Head() header not retrievable by height / by hash when re-read at once
-	SyncedBad int     `json:"syncedBad"`
-	FinalHead int     `json:"finalHead"`
-	FinalTail int     `json:"finalTail"`
-	FinalHs   int     `json:"finalHs"`
-	Missing   []int   `json:"missing"` // heights in finalTail..finalHead not readable at the end
-	TailWant  int     `json:"tailWant"`
-	Errors    int     `json:"errors"`
+	Tr        int      `json:"tr"`
+	Kind      string   `json:"kind"`
+	N         int      `json:"n"`
+	Writers   int      `json:"writers"`
+	Bsz       int      `json:"bsz"`
+	Deleter   bool     `json:"deleter"`
+	HeadSeqs  [][]int  `json:"headseqs"` // per observer: Head().Height() samples (run-length compressed)
+	HsSeqs    [][]int  `json:"hsseqs"`   // per observer: Height() samples
+	HeadBad   int      `json:"headBad"`  // Head() header not retrievable by height / by hash when re-read at once
+	SyncedBad int      `json:"syncedBad"`
+	FinalHead int      `json:"finalHead"`
+	FinalTail int      `json:"finalTail"`
+	FinalHs   int      `json:"finalHs"`
+	Missing   []int    `json:"missing"` // heights in finalTail..finalHead not readable at the end
+	TailWant  int      `json:"tailWant"`
+	Errors    int      `json:"errors"`
 	Readers   []RdrOut `json:"readers"`
-	Appended  []int   `json:"appended"`
-	Height    int     `json:"height"`
-	Head      int     `json:"head"`
-	HeadSeq   []int   `json:"headseq"`
-	HsSeq     []int   `json:"hsseq"`
+	Appended  []int    `json:"appended"`
+	Height    int      `json:"height"`
+	Head      int      `json:"head"`
+	HeadSeq   []int    `json:"headseq"`
+	HsSeq     []int    `json:"hsseq"`
 }
 
 func compress(s []int) []int {
@@ -140,10 +140,17 @@ func stressOnce(t *testing.T, id int, rnd *rand.Rand) StressRec {
 					ctx, cancel := context.WithTimeout(bg, 2*time.Second)
 					g, err := st.GetByHeight(ctx, hd.Height())
 					cancel()
-					if err != nil || g.Hash().String() != hd.Hash().String() {
+					// the head that was read may be pruned by the racing deleter before it is read again (the observer can be
+					// descheduled for long on a loaded machine): a failed re-read counts only if the header is still at or
+					// above the tail afterwards (the tail only moves up)
+					stillThere := func() bool {
+						tl, terr := st.Tail(bg)
+						return terr == nil && tl.Height() <= hd.Height()
+					}
+					if (err != nil || g.Hash().String() != hd.Hash().String()) && stillThere() {
 						headBad.Add(1)
 					}
-					if _, err := st.Get(bg, hd.Hash()); err != nil {
+					if _, err := st.Get(bg, hd.Hash()); err != nil && stillThere() {
 						headBad.Add(1)
 					}
 				}
